@@ -1,6 +1,9 @@
 package main
 
 import (
+	"bytes"
+	"os"
+	"os/exec"
 	"crypto/sha256"
 	"encoding/hex"
 	"encoding/json"
@@ -93,7 +96,7 @@ type Aux struct {
 	C12 *C12Expect `json:"c12,omitempty"`
 	// C20: session lines and their classes
 	C20 *C20Expect `json:"c20,omitempty"`
-	// C17: nothing beyond the history
+	C17 *C17Expect `json:"c17,omitempty"`
 	// C13: tags that must appear in source order
 	C13 *C13Expect `json:"c13,omitempty"`
 	// C19 input scenario
@@ -438,7 +441,12 @@ func (c *EvalCtx) RunAll(cs *Case) []Obs {
 	obs := make([]Obs, len(cs.Runs))
 	c.Results = c.Results[:0]
 	for i, r := range cs.Runs {
-		res := Exec(r.Cfg)
+		var res sim.Result
+		if strings.HasPrefix(r.Role, "fresh-process") {
+			res = execFresh(r.Cfg)
+		} else {
+			res = Exec(r.Cfg)
+		}
 		c.Results = append(c.Results, res)
 		obs[i] = Observe(res)
 		if c.Stats != nil {
@@ -473,3 +481,24 @@ func register(p *Property) { properties[p.ID] = p }
 
 func ptrS(s string) *string { return &s }
 func ptrI(i int) *int       { return &i }
+
+// execFresh runs one configuration in a fresh OS process of this binary.
+func execFresh(cfg sim.Config) sim.Result {
+	self, err := os.Executable()
+	if err != nil {
+		fatal2("execFresh: %v", err)
+	}
+	b, _ := json.Marshal(cfg)
+	cmd := exec.Command(self, "one")
+	cmd.Stdin = bytes.NewReader(b)
+	out, err := cmd.Output()
+	if err != nil {
+		// the child died (Go fatal error): report it as a panic-like outcome
+		return sim.Result{Panic: "fresh process died: " + err.Error(), Events: []sim.Event{{Kind: "PANIC", Data: "fresh process died"}}}
+	}
+	var r sim.Result
+	if err := json.Unmarshal(out, &r); err != nil {
+		fatal2("execFresh: %v", err)
+	}
+	return r
+}
